@@ -1,6 +1,6 @@
 """Python → Lean translation (by template) of the like-term predicates of util.py (property C16).
 
-`is_add_or_sub`, `get_terms`, `terms_are_like` and `has_like_terms` must be, statement for statement, the code quoted in
+`is_add_or_sub`, `make_term`, `get_terms`, `terms_are_like` and `has_like_terms` must be, statement for statement, the code quoted in
 TEMPLATES (compared as syntax trees; docstrings, annotations and comments aside).  The emitted Lean is the
 translation of exactly that code:
 
@@ -47,6 +47,21 @@ def get_terms(expression):
         return None
     root.visit_inorder(visit_fn)
     return [expression] if len(results) == 0 else results
+""",
+    "make_term": """
+def make_term(coefficient=1, variable=None, exponent=None):
+    constExp = ConstantExpression(coefficient)
+    if variable is None and exponent is None:
+        return constExp
+    varExp = VariableExpression(variable)
+    if coefficient == 1 and exponent is None:
+        return varExp
+    if exponent is None:
+        return MultiplyExpression(constExp, varExp)
+    expConstExp = ConstantExpression(exponent)
+    if coefficient == 1:
+        return PowerExpression(varExp, expConstExp)
+    return MultiplyExpression(constExp, PowerExpression(varExp, expConstExp))
 """,
     "terms_are_like": """
 def terms_are_like(one, two):
@@ -99,6 +114,25 @@ def terms_are_like (one two : Option TermKey) : Bool :=
     else if one.exp != two.exp then false
     else true
   | _, _ => false
+
+/-- `util.py`: `make_term`; every node is a new object (identity 0).  `VariableExpression(None)` — an exponent
+without a variable — is not an expression of the model's domain (`none`). -/
+def make_term (coefficient : Rat) (variable_ : Option Char) (exponent : Option Rat) : Option Ex :=
+  let constExp := Ex.const 0 coefficient;
+  if variable_.isNone && exponent.isNone then some constExp
+  else
+    match variable_ with
+    | none => none
+    | some x =>
+      let varExp := Ex.var 0 x;
+      if coefficient == 1 && exponent.isNone then some varExp
+      else
+        match exponent with
+        | none => some (Ex.bin 0 .mul constExp varExp)
+        | some e =>
+          let expConstExp := Ex.const 0 e;
+          if coefficient == 1 then some (Ex.bin 0 .pow varExp expConstExp)
+          else some (Ex.bin 0 .mul constExp (Ex.bin 0 .pow varExp expConstExp))
 
 /-- the closure `visit_fn` of `get_terms`: what one visited node appends to `results` (a unary node has its operand
 on one side only and is never an addition / subtraction) -/
